@@ -108,8 +108,15 @@ func (session *ServerCommandSession) FeedSdp(b []byte) {
 // 使用RTSP TCP命令连接，向对端发送RTP数据
 func (session *ServerCommandSession) WriteInterleavedPacket(packet []byte, channel int) error {
 	if session.isWebSocket {
-		respLen := len(packInterleaved(channel, packet))
-		session.writeWsFrameHeader(respLen)
+		// 注意，websocket头部和负载必须作为一个整体进入发送队列，否则队列满时有可能只丢掉其中一个
+		b := packInterleaved(channel, packet)
+		wsHeader := base.WsHeader{
+			Fin:           true,
+			Opcode:        base.Wso_Binary,
+			PayloadLength: uint64(len(b)),
+		}
+		_, err := session.conn.Writev(net.Buffers{base.MakeWsFrameHeader(wsHeader), b})
+		return err
 	}
 	_, err := session.conn.Write(packInterleaved(channel, packet))
 	return err
